@@ -102,6 +102,11 @@ func TimeStampToCdr(t *time.Time) cdrType.TimeStamp {
 
 func PlmnIdToCdr(modelsPlmnid models.PlmnId) cdrType.PLMNId {
 	var hexString string
+	var cdrPlmnId cdrType.PLMNId
+	// MCC is 3 digits and MNC 2 or 3 digits (TS 23.003); anything else cannot be encoded
+	if len(modelsPlmnid.Mcc) != 3 || (len(modelsPlmnid.Mnc) != 2 && len(modelsPlmnid.Mnc) != 3) {
+		return cdrPlmnId
+	}
 	mcc := strings.Split(modelsPlmnid.Mcc, "")
 	mnc := strings.Split(modelsPlmnid.Mnc, "")
 	if len(modelsPlmnid.Mnc) == 2 {
@@ -110,7 +115,6 @@ func PlmnIdToCdr(modelsPlmnid models.PlmnId) cdrType.PLMNId {
 		hexString = mcc[1] + mcc[0] + mnc[0] + mcc[2] + mnc[2] + mnc[1]
 	}
 
-	var cdrPlmnId cdrType.PLMNId
 	if plmnId, err := hex.DecodeString(hexString); err == nil {
 		cdrPlmnId.Value = plmnId
 	}
